@@ -112,7 +112,7 @@ func createProposal(name string, cs proto.Message, cons proto.Message) *clientty
 
 func TestC15_Known_BscEpochZero(t *testing.T) {
 	w := baseWorld()
-	cs := fixedBSC(0)
+	cs := fixedBSC(200)
 	cs.Epoch = 0
 	content, ok := acceptedContent(w, createProposal("bsc-test", cs, fixedCons("bsc")))
 	var p *panicInfo
@@ -125,7 +125,7 @@ func TestC15_Known_BscEpochZero(t *testing.T) {
 
 func TestC15_Known_BscChainIdOverflow(t *testing.T) {
 	w := baseWorld()
-	cs := fixedBSC(0)
+	cs := fixedBSC(200)
 	cs.ChainId = 1 << 63
 	content, ok := acceptedContent(w, createProposal("bsc-test", cs, fixedCons("bsc")))
 	var p *panicInfo
@@ -154,7 +154,7 @@ func TestC15_Known_BscUpgradeMalformedStoreKey(t *testing.T) {
 	w := baseWorld()
 	for _, key := range []string{"recentSingers", "consensusStates/short"} {
 		gs := clienttypes.GenesisState{
-			Clients:         []clienttypes.IdentifiedClientState{{ChainName: "bsc-test", ClientState: mustAny(fixedBSC(0))}},
+			Clients:         []clienttypes.IdentifiedClientState{{ChainName: "bsc-test", ClientState: mustAny(fixedBSC(200))}},
 			ClientsMetadata: []clienttypes.IdentifiedGenesisMetadata{{ChainName: "bsc-test", Metadata: []clienttypes.GenesisMetadata{{Key: []byte(key), Value: []byte{1}}}}},
 			NativeChainName: w.c.ChainID,
 		}
